@@ -1,7 +1,7 @@
 CONSTANTS
-  Family = "access"
-  MaxDepth = 2
-  SampleSize = 2500
+  Family = "logic"
+  MaxDepth = 3
+  SampleSize = 400
   NegUnionFlipsEach = FALSE
   NegNestedUnionFlips = FALSE
   FalsyObjs = {}
